@@ -57,8 +57,10 @@ def gen_conn_steps(rng, depth, ids, allow_nested=True):
             steps.append(("select_all",))
         elif r < 0.6:
             steps.append(("select_scalar",))
-        elif r < 0.7:
+        elif r < 0.66:
             steps.append(("stream", rng.randint(1, 3)))
+        elif r < 0.7:
+            steps.append(("stream_unique", rng.choice(["scalars", "mappings", "rows"])))
         elif r < 0.78:
             steps.append(("run_sync",))
         elif r < 0.86:
@@ -102,7 +104,10 @@ def gen_program(rng):
                     sess_steps.append(("modify", rng.randint(1, 6), "m%d" % next(ids)))
                 else:
                     sess_steps.append(("commit",))
-            prog.append(("session", sess_steps, rng.choice(["commit", "rollback", "none"])))
+            if rng.random() < 0.3:
+                sess_steps.insert(rng.randint(1, len(sess_steps)), ("reset",))
+            prog.append(("session", sess_steps, rng.choice(["commit", "rollback", "none"]),
+                         {"close_resets_only": rng.random() < 0.5}))
     return prog
 
 
@@ -170,6 +175,14 @@ def run_sync_program(sa, orm, t, Row, path, prog):
                     res = conn.execution_options(stream_results=True).execute(sa.select(t.c.id).order_by(t.c.id))
                     out.append(("stream", norm_rows(res.fetchmany(st[1]))))
                     res.close()
+                elif k == "stream_unique":
+                    res = conn.execute(sa.select(t.c.txn, t.c.v.is_(None)).order_by(t.c.id)).unique()
+                    if st[1] == "scalars":
+                        out.append(("stream_unique", res.scalars().all()))
+                    elif st[1] == "mappings":
+                        out.append(("stream_unique", [tuple(m.values()) for m in res.mappings().all()]))
+                    else:
+                        out.append(("stream_unique", norm_rows(res.all())))
                 elif k == "run_sync":
                     out.append(("run_sync", norm_rows(conn.execute(sa.select(t.c.id).where(t.c.v.is_not(None)).order_by(t.c.id)).all())))
                 elif k == "update":
@@ -234,11 +247,15 @@ def run_sync_program(sa, orm, t, Row, path, prog):
                         out.append(("txn-integrity",))
             else:
                 txn_no += 1
-                with orm.Session(eng) as s:
+                skw = block[3] if len(block) > 3 else {}
+                with orm.Session(eng, **skw) as s:
                     try:
                         for st in block[1]:
                             k = st[0]
-                            if k == "add":
+                            if k == "reset":
+                                s.reset()
+                                out.append(("reset",))
+                            elif k == "add":
                                 o = Row()
                                 o.id, o.v, o.txn = st[1], st[2], txn_no
                                 s.add(o)
@@ -301,6 +318,15 @@ async def run_async_program(sa, orm, aio, t, Row, eng, prog, ar):
                 elif k == "stream":
                     async with conn.stream(sa.select(t.c.id).order_by(t.c.id)) as res:
                         out.append(("stream", norm_rows(await res.fetchmany(st[1]))))
+                elif k == "stream_unique":
+                    async with conn.stream(sa.select(t.c.txn, t.c.v.is_(None)).order_by(t.c.id)) as ares:
+                        ures = ares.unique()
+                        if st[1] == "scalars":
+                            out.append(("stream_unique", await ures.scalars().all()))
+                        elif st[1] == "mappings":
+                            out.append(("stream_unique", [tuple(m.values()) for m in await ures.mappings().all()]))
+                        else:
+                            out.append(("stream_unique", norm_rows(await ures.all())))
                 elif k == "run_sync":
                     rows = await conn.run_sync(
                         lambda c: c.execute(sa.select(t.c.id).where(t.c.v.is_not(None)).order_by(t.c.id)).all())
@@ -378,11 +404,15 @@ async def run_async_program(sa, orm, aio, t, Row, eng, prog, ar):
             else:
                 txn_no += 1
                 sub = 0
-                async with aio.AsyncSession(eng) as s:
+                skw = block[3] if len(block) > 3 else {}
+                async with aio.AsyncSession(eng, **skw) as s:
                     try:
                         for st in block[1]:
                             k = st[0]
-                            if k == "add":
+                            if k == "reset":
+                                await s.reset()
+                                out.append(("reset",))
+                            elif k == "add":
                                 o = Row()
                                 o.id, o.v, o.txn = st[1], st[2], txn_no
                                 s.add(o)
